@@ -53,11 +53,12 @@ func factKey(f Fact) string {
 	return k
 }
 
-var mustFactsCache = map[string][]Fact{}
+var mustFactsCache = map[string][][]Fact{}
 var mustFactsBusy = map[string]bool{}
 
-// mustFacts: facts that hold whenever fn returns with result idx having the outcome ("nil", "true", "false").
-func mustFacts(fn *ssa.Function, idx int, outcome string) []Fact {
+// mustFacts: the ways fn can return with result idx having the outcome ("nil", "true", "false"), each as the
+// list of facts that hold on it. An outcome implies a property if every way carries a fact with that property.
+func mustFacts(fn *ssa.Function, idx int, outcome string) [][]Fact {
 	key := FuncName(fn) + "|" + outcome + "|" + string(rune('0'+idx))
 	if r, ok := mustFactsCache[key]; ok {
 		return r
@@ -112,31 +113,8 @@ func mustFacts(fn *ssa.Function, idx int, outcome string) []Fact {
 			ways = append(ways, fs)
 		}
 	}
-	var must []Fact
-	if len(ways) > 0 {
-		for _, f := range ways[0] {
-			k := factKey(f)
-			all := true
-			for _, w := range ways[1:] {
-				found := false
-				for _, g := range w {
-					if factKey(g) == k {
-						found = true
-						break
-					}
-				}
-				if !found {
-					all = false
-					break
-				}
-			}
-			if all {
-				must = append(must, f)
-			}
-		}
-	}
-	mustFactsCache[key] = must
-	return must
+	mustFactsCache[key] = ways
+	return ways
 }
 
 // callOutcome: f is a fact about the result of a call to an in-module function with a body.
@@ -215,8 +193,8 @@ func expandFP2(cut FP, direct bool) FP {
 			return false
 		}
 		callee := cl.Call.StaticCallee()
-		facts := mustFacts(callee, idx, outcome)
-		if len(facts) == 0 {
+		ways := mustFacts(callee, idx, outcome)
+		if len(ways) == 0 {
 			return false
 		}
 		// render the callee's parameters as the caller's arguments (themselves rendered under the current map)
@@ -237,10 +215,17 @@ func expandFP2(cut FP, direct bool) FP {
 		}
 		exprParamSubst, valueParamSubst = next, nextV
 		expandDepth++
-		ok := false
-		for _, g := range facts {
-			if self(g) {
-				ok = true
+		ok := true
+		for _, way := range ways {
+			hit := false
+			for _, g := range way {
+				if self(g) {
+					hit = true
+					break
+				}
+			}
+			if !hit {
+				ok = false
 				break
 			}
 		}
